@@ -324,6 +324,37 @@ def run_pool_case(case, forced, mode):
 CLIENT_OPS = ["set", "get", "fail_recv", "illegal_key", "quit", "close"]
 
 
+def _own(i):
+    return b"value-of-thread-%d" % i
+
+
+# every other public data method of PooledClient, each on items that belong to the calling thread, with the result an
+# undisturbed call must give ("m:<name>" operations; the server is pre-loaded accordingly in run_client_case)
+METHOD_OPS = {
+    "set_many": lambda f, i: f.set_many({"k%d" % i: b"v%d" % i}) == [],
+    "get_many": lambda f, i: f.get_many(["g%d" % i, "absent"]) == {"g%d" % i: _own(i)},
+    "gets": lambda f, i: f.gets("g%d" % i)[0] == _own(i),
+    "gets_many": lambda f, i: {k: v[0] for k, v in f.gets_many(["g%d" % i]).items()} == {"g%d" % i: _own(i)},
+    "gat": lambda f, i: f.gat("g%d" % i, 0) == _own(i),
+    "gats": lambda f, i: f.gats("g%d" % i, 0)[0] == _own(i),
+    "add": lambda f, i: f.add("g%d" % i, b"x") is False,
+    "replace": lambda f, i: f.replace("g%d" % i, _own(i)) is True,
+    "append": lambda f, i: f.append("g%d" % i, b"") is True,
+    "prepend": lambda f, i: f.prepend("g%d" % i, b"") is True,
+    "cas": lambda f, i: f.cas("g%d" % i, b"x", b"99999999") is False,
+    "delete": lambda f, i: f.delete("absent%d" % i) is False,
+    "delete_many": lambda f, i: f.delete_many(["absent%d" % i, "absent"]) is True,
+    "incr": lambda f, i: f.incr("c%d" % i, 0) == 5,
+    "decr": lambda f, i: f.decr("c%d" % i, 0) == 5,
+    "touch": lambda f, i: f.touch("g%d" % i, 0) is True,
+    "stats": lambda f, i: isinstance(f.stats(), dict),
+    "version": lambda f, i: isinstance(f.version(), bytes),
+    "raw_command": lambda f, i: f.raw_command(b"version").startswith(b"VERSION"),
+    "getitem": lambda f, i: f["g%d" % i] == _own(i),
+    "setitem": lambda f, i: f.__setitem__("k%d" % i, b"v%d" % i) is None,
+}
+
+
 def run_client_case(case, forced, mode):
     """case = ("client", programs, max_pool_size[, use_pooling value]) - with a 4th element the PooledClient is the one a
     HashClient(use_pooling=<value>) builds for its single server, and the operations go through the HashClient"""
@@ -340,6 +371,7 @@ def run_client_case(case, forced, mode):
     srv.store[b"h1"] = Item(b"v1", 0, 0, srv._next_cas())
     for t_ in range(4):
         srv.store[b"g%d" % t_] = Item(b"value-of-thread-%d" % t_, 0, 0, srv._next_cas())      # every thread reads its own item
+        srv.store[b"c%d" % t_] = Item(b"5", 0, 0, srv._next_cas())
     active = {}
     viol_extra = []
     close_marks = []
@@ -363,7 +395,8 @@ def run_client_case(case, forced, mode):
                 if active.get(id(self)) == me:
                     active[id(self)] = None if other is None or other == me else other
         return f
-    for name in ("set", "get", "get_many", "delete", "quit", "gets", "add", "incr"):
+    for name in ("set", "get", "get_many", "delete", "quit", "gets", "add", "incr", "set_many", "gets_many", "gat", "gats", "replace",
+                 "append", "prepend", "cas", "delete_many", "decr", "touch", "stats", "version", "raw_command"):
         setattr(Guarded, name, guard(name))
 
     import pymemcache.pool as poolmod
@@ -403,6 +436,8 @@ def _run_client_case(case, forced, mode, sch, net, srv, active, viol_extra, clos
     fail_state = {"armed": set()}
     outcomes = []
 
+    has_close_ = any("close" in ops for ops in programs)
+
     def prog_for(idx, ops):
         def prog():
             for j, op in enumerate(ops):
@@ -415,6 +450,10 @@ def _run_client_case(case, forced, mode, sch, net, srv, active, viol_extra, clos
                     elif op == "fail_recv":
                         net.faults[((idx, j), "recv")] = "reset"
                         r = front.get("h1")
+                    elif op.startswith("m:"):
+                        r = METHOD_OPS[op[2:]](front, idx)
+                        if r is not True and not has_close_:
+                            viol_extra.append(("wrong-result-under-concurrency", "thread %d's %s did not give the result of an undisturbed call" % (idx, op)))
                     elif op == "illegal_key":
                         r = front.get("bad key")
                     elif op == "quit":
@@ -714,6 +753,12 @@ def cases(tier):
         for a, b, c in itertools.product(["set", "fail_recv", "close", "quit"], repeat=3):
             if (common.h64((a, b, c, ms)) % (8 if tier == "quick" else 2)) == 0:
                 out.append((("client", ((a, c), (b,)), ms), 1 if tier == "quick" else 2))
+    # every other PooledClient method against a plain read, a failing read and itself
+    for mi, m in enumerate(sorted(METHOD_OPS)):
+        for ms in (1, 2, None):
+            out.append((("client", (("m:" + m,), ("get",)), ms), 1))
+        out.append((("client", (("m:" + m,), ("m:" + m,)), 2), 1))
+        out.append((("client", (("m:" + m,), ("fail_recv",)), (1, 2, None)[mi % 3]), 1))
     if tier == "thorough":
         # three operations in one thread, and PooledClient programs for the INSTRUCTION pass (see shard)
         r = random.Random(8)
